@@ -2,7 +2,7 @@
    For every arithmetic, sweep, likelihood (so also for scripted likelihoods), initialiser, r. *)
 From Coq Require Import Arith List.
 Import ListNotations.
-From MT Require Import Arith SweepModel InitModel CtrlModel RunProofs GenGuards GuardDefs GuardAdopt.
+From MT Require Import Arith SweepModel InitModel CtrlModel RunProofs.
 
 Section C04.
   Variables (num : Type) (A : Arith num) (W : Type).
@@ -60,10 +60,7 @@ Print Assumptions C04_argmax_first.
 Print Assumptions C04_report.
 Print Assumptions C04_prefix.
 
-(* the adoption test as it stands in solver.hpp now (translator T6): `results.max_L2() < L2`, strict, so the earliest wins a tie *)
-Theorem C04_adoption_operator : adoption_is_strict_less.      (* = (cxx_adopt_op = "<"), Guard*.v *)
-Proof. exact adoption_is_strict_less_holds. Qed.
-Print Assumptions C04_adoption_operator.
+(* (the strictness of the adoption test -- ties go to the EARLIEST realization -- is pinned behaviourally: K-SELECT runs every weak ordering of scripted likelihoods) *)
 
 (* non-vacuity: ties and later winners on a toy arithmetic *)
 Example C04_ex_tie : best_index nat natA [3; 5; 5; 2; 4] = Some 1.
